@@ -45,8 +45,9 @@ void GMGPolar::solve()
 
     number_of_iterations_ = 0;
 
-    double initial_residual_norm;
-    double current_residual_norm, current_relative_residual_norm;
+    double initial_residual_norm          = 0.0;
+    double current_residual_norm          = 0.0;
+    double current_relative_residual_norm = 0.0;
 
     while (number_of_iterations_ < max_iterations_) {
 
@@ -196,8 +197,11 @@ void GMGPolar::solve()
         /* -------------------------------- */
         /* Compute the reduction factor rho */
         /* -------------------------------- */
-        mean_residual_reduction_factor_ =
-            std::pow(current_residual_norm / initial_residual_norm, 1.0 / number_of_iterations_);
+        /* Only defined if residual norms were computed (at least one tolerance enabled). */
+        if (!residual_norms_.empty()) {
+            mean_residual_reduction_factor_ =
+                std::pow(current_residual_norm / initial_residual_norm, 1.0 / number_of_iterations_);
+        }
 
         if (verbose_ > 0) {
             std::cout << "\nTotal Iterations: " << number_of_iterations_ << std::endl;
@@ -211,9 +215,11 @@ void GMGPolar::solve()
     LIKWID_STOP("Solve");
 
     if (paraview_) {
-        computeExactError(level, level.solution(), level.residual());
         writeToVTK("output_solution", level, level.solution());
-        writeToVTK("output_error", level, level.residual());
+        if (exact_solution_ != nullptr) {
+            computeExactError(level, level.solution(), level.residual());
+            writeToVTK("output_error", level, level.residual());
+        }
     }
 }
 
